@@ -32,7 +32,8 @@ pub fn run_sat(case: &Value, _seed: u64) -> Outcome {
     const CHAIN6: [&str; 6] = ["1.0-1~bpo12+1", "1.0-1", "1.0-2", "1.0-9", "1.0-10", "1.0-10+b1"];
     let chain6_ok = CHAIN6.windows(2).all(|w| w[0].parse::<Version>().ok() < w[1].parse::<Version>().ok());
     // chain 8: binary rebuilds (+bN) and security suffixes next to the version they extend (greater, never equal)
-    const CHAIN8: [&str; 6] = ["1.0-1~exp1", "1.0-1", "1.0-1+b1", "1.0-1+b2", "1.0-1+deb12u1", "1.0-2"];
+    // (the required version is rank 3 - or 2 / 4 in the thorough table -, the installed one rank 2, 3 or 4)
+    const CHAIN8: [&str; 6] = ["0.9", "1.0-0~rc1", "1.0-0", "1.0-1", "1.0-1+b1", "1.0-1+b2"];
     let chain8_ok = CHAIN8.windows(2).all(|w| w[0].parse::<Version>().ok() < w[1].parse::<Version>().ok());
     for chain_id in 0..9 {
         if chain_id == 8 && !chain8_ok { o.d("chain8_not_ascending", "", String::new()); continue; }
